@@ -19,7 +19,7 @@ RULE = ("Sequential: for every assignment of kinds {module glue, built-in glue, 
         "object, built-in at most once ever and never for a module that has its own, raising glue -> one RuntimeWarning and the "
         "others still run). Concurrent: every schedule with <= B preemptions of 2-3 extracting threads (thorough: also 4, with <= 1 preemption) (+ an environment thread "
         "that removes/adds modules) at line granularity inside add_glue_as_needed; invariant: no glue twice, never both kinds, "
-        "the first extraction that started after a module appeared does not return before that module's glue ran, no deadlock.")
+        "the first extraction that started after a module appeared does not return before that module's glue ran, no deadlock; a final quiet extraction leaves every present module with its glue run exactly once (also one whose entry vanished and came back meanwhile).")
 ASSUMPTIONS = [
     "in-place replacement of a sys.modules value and mutation of a module's dict after insertion are outside the alphabet",
     "interleavings are at source-line granularity of add_glue_as_needed; one line is atomic (GIL)",
@@ -328,10 +328,13 @@ CONC_SCENARIOS = [
     ({"vmod_a": "builtin", "vmod_b": "module", "vmod_c": "raising_builtin"}, [("add", "vmod_c"), ("extract",), ("remove", "vmod_c"), ("add", "vmod_a")],
      [("add", "vmod_b")], 2),
     ({"vmod_a": "both", "vmod_b": "both", "vmod_c": "neither"}, [("add", "vmod_a"), ("add", "vmod_b")], [], 3),
+    # a module with built-in glue vanishes and comes back while extractions are in flight
+    ({"vmod_a": "module", "vmod_b": "builtin", "vmod_c": "builtin"}, [("add", "vmod_a"), ("add", "vmod_b"), ("add", "vmod_c")],
+     [("remove", "vmod_b"), ("add", "vmod_b")], 2),
     # four extracting threads + environment (thorough tier only, at most one preemption)
     ({"vmod_a": "module", "vmod_b": "raising_builtin", "vmod_c": "both"}, [("add", "vmod_a"), ("add", "vmod_b")], [("add", "vmod_c")], 4),
 ]
-FOUR_THREAD_SCENARIOS = (5,)
+FOUR_THREAD_SCENARIOS = (6,)
 
 
 _LF = {}
@@ -469,6 +472,23 @@ def run_conc_scenario(W, si, bound, ctx):
             for n in NAMES:
                 if kinds[n] == "both" and ("builtin", n) in W.log:
                     problems.append("built-in glue ran for %s although the module provides its own" % n)
+            # whatever happened while the threads ran: one more extraction, with everything quiet, leaves every module
+            # that is present now with its glue installed (exactly once)
+            with warnings.catch_warnings():
+                warnings.simplefilter("ignore")
+                W.extract()
+            for n in NAMES:
+                if n not in sys.modules:
+                    continue
+                k = kinds[n]
+                nb = sum(1 for e in W.log if e[:2] == ("builtin", n))
+                if k in ("builtin", "raising_builtin") and nb + (1 if ("builtin", n) in prelog else 0) != 1:
+                    problems.append("after a final quiet extraction the built-in glue for %s (present) has run %d times" % (n, nb))
+                if k in ("module", "both", "raising"):
+                    ser = getattr(sys.modules[n], "_verif_serial", None)
+                    nm = sum(1 for e in W.log if e == ("module", n, ser)) + sum(1 for e in prelog if e == ("module", n, ser))
+                    if nm != 1:
+                        problems.append("after a final quiet extraction the module glue of %s#%s has run %d times" % (n, ser, nm))
             return problems
 
         prelog = []
